@@ -25,7 +25,7 @@ RULE = (
     "2N cells and mirror-symmetric widths on that axis); 5..8 FieldDetectors with per-axis contact class drawn from "
     "{low, interior, high, full} (detector 0 is forced strictly interior and exact, detector 1 exact and touching a "
     "face, the others free), exact_interpolation in {True, False}, random component subsets, some switched off at "
-    "the probed step; dense gaussian E, H, H_prev from drawn seeds plus drawn impulses next to the faces. "
+    "the probed step or never on (always-off switch); dense gaussian E, H, H_prev from drawn seeds plus drawn impulses next to the faces. "
     "Non-trivial = the case holds at least one exact detector on the fallback path (touches a face) and one on the "
     "interior path, both non-empty and compared against the oracle. Distinct = sha1 of the case JSON."
 )
